@@ -77,7 +77,15 @@ def main(pid):
         docs = docs[:5000]
     docs = C03_DOCS + gendocs.reference_docs() + docs + list(gendocs.random_docs(vlib.seed(), 8000 if thorough else 2500, kmin=3, kmax=8))
     docs = [d for d in dict.fromkeys(docs) if d.strip()]
-    dobs = vlib.impl_map("drv_extract", "run_docs", [{"text": d, "tok": "aho"} for d in docs], common={"merge": True})
+    ditems = [{"text": d, "tok": "aho"} for d in docs]
+    # configurations: remove_ambiguous=True, and markup mode (emphasised, also multi-word line-wrapped party names; step
+    # lists with `html` first, last or in the middle): the guarantees are about every returned list
+    import chk_markup
+    ditems += [{"text": d, "tok": "aho", "ra": True} for d in docs[:: (4 if thorough else 10)]]
+    for i, m in enumerate(chk_markup.documents(rnd, 1500 if thorough else 400)):
+        ditems.append({"markup": m, "steps": chk_markup.STEPS[i % len(chk_markup.STEPS)], "tok": "aho"})
+    docs = [it.get("text", it.get("markup")) for it in ditems]
+    dobs = vlib.impl_map("drv_extract", "run_docs", ditems, common={"merge": True})
     for o in dobs:
         o["kind"] = "doc"
         for c in o["cites"]:
@@ -98,7 +106,7 @@ def main(pid):
                               "merges": [[(c["cls"], c["s"], c["e"]) for c in m["once"]] for m in o["merges"]]},
                          {"clause": cl, "classes": "-".join(c["cls"][:5] for c in o["cites"])[:80]},
                          judge=vlib.J("Trace_Filter", "Trace_Filter.cfg", o),
-                         rerun=vlib.R("drv_extract", "run_docs", {"text": docs[ix], "tok": "aho"}, common={"merge": True},
+                         rerun=vlib.R("drv_extract", "run_docs", ditems[ix], common={"merge": True},
                                       fields=["cites", "merges", "raised"]))
     for ix, _ in drifts:
         vd.spec_drift("Filter", f"document {docs[ix][:100]!r}")
@@ -106,7 +114,9 @@ def main(pid):
     ev.sample({"document": docs[0], "cites": [(c["cls"], c["s"], c["e"]) for c in dobs[0]["cites"]]})
     ev.cov["traces_validated_against_impl"] = total
     ev.cov["evaluations"] = total
-    ev.cov["distinct_nontrivial"] = len(lists) + len(docs)
+    ev.cov["distinct_nontrivial"] = len(lists) + len(set(docs))
+    ev.cov["markup_mode_documents"] = sum(1 for it in ditems if "markup" in it)
+    ev.cov["remove_ambiguous_documents"] = sum(1 for it in ditems if it.get("ra"))
     ev.cov["rule"] = "every list of MC_Filter_emit; distinct generated documents (fragment pairs x separators, seeded longer documents), each with two merge histories"
     ev.cov["reference_citations_in_merge_histories"] = nref
     ev.cov["documents_raised_not_judged_here"] = sum(1 for o in dobs if o["raised"])
